@@ -158,6 +158,9 @@ def render_params(trait, p, level, sp):
     only_ignore = set(p.keys()) == {'ignore'} and p['ignore'] is True
     if only_ignore and level == 'field' and trait in ('PartialEq', 'Eq', 'PartialOrd', 'Ord', 'Hash', 'Debug'):
         return sp.pick('ignoreform', ['(' + _sp_bool_flag('ignore', sp) + ')', ' = false'])
+    if set(p.keys()) == {'ignore'} and p['ignore'] is False and level == 'field' and trait in ('PartialEq', 'Eq', 'PartialOrd', 'Ord', 'Hash', 'Debug'):
+        # explicitly *not* ignored: the boolean's value matters, not its presence
+        return sp.pick('notignoreform', ['(ignore = false)', '(ignore(false))', ' = true'])
     if trait == 'Debug' and set(p.keys()) == {'name'} and isinstance(p['name'], str):
         # Trait = X shorthand for a (re)name; `= false` is not a name at type/variant level and
         # means ignore at field level, so only identifiers take the short form
@@ -175,6 +178,8 @@ def render_params(trait, p, level, sp):
         if k == 'ignore':
             if v:
                 parts.append(_sp_bool_flag('ignore', sp))
+            elif v is False:
+                parts.append(sp.pick('ignorefalse', ['ignore = false', 'ignore(false)']))
         elif k == 'method':
             parts.append(_sp_path('method', v, sp))
         elif k == 'rank':
@@ -190,6 +195,8 @@ def render_params(trait, p, level, sp):
         elif k == 'new':
             if v:
                 parts.append(_sp_bool_flag('new', sp))
+            elif v is False:
+                parts.append(sp.pick('newfalse', ['new = false', 'new(false)']))
         elif k == 'bound':
             parts.append(_sp_bound(v, sp))
         else:
